@@ -465,20 +465,28 @@ def _mask_feas(c):
     return lambda i: o.elems[i] != 0  # truth value of a number
 
 
+pos_mark = z3.Function("pareto_position_marker", I_, z3.BoolSort())  # only a trigger (see `complete`)
+mono_mark = z3.Function("pareto_monotone_marker", I_, I_, z3.BoolSort())  # only a trigger: cnt-monotone is instantiated at (a, b) where a proof names mono_mark(a, b)
+
+
 def _pf_axioms(c, n):
     feas = _mask_feas(c)
     i = z3.Int("i!pc")
     return [("cnt-zero", cnt_pf(0) == 0),
-            ("cnt-step", z3.ForAll([i], z3.Implies(z3.And(0 <= i, i < n), cnt_pf(i + 1) == cnt_pf(i) + z3.If(feas(i), 1, 0)), patterns=[cnt_pf(i + 1)])),
-            # consequences of the recursive definition, proved by induction in ParetoCntLemmas
+            ("cnt-step", z3.ForAll([i], z3.Implies(z3.And(0 <= i, i < n), cnt_pf(i + 1) == cnt_pf(i) + z3.If(feas(i), 1, 0)),
+                                   # (both terms must be present: an instance then creates no new cnt term - no chain i, i - 1, i - 2, ...)
+                                   patterns=[z3.MultiPattern(cnt_pf(i + 1), cnt_pf(i))])),
+            # consequence of the recursive definition, proved by induction in ParetoCntLemmas
             ("cnt-bounds", z3.ForAll([i], z3.Implies(z3.And(0 <= i, i <= n), z3.And(0 <= cnt_pf(i), cnt_pf(i) <= i)), patterns=[cnt_pf(i)])),
             ("cnt-monotone", _pf_monotone(n))]
 
 
-def _pf_monotone(n, upto=None):
+def _pf_monotone(n, upto=None, marked=True):
     a, b = z3.Int("a!pm"), z3.Int("b!pm")
     top = n if upto is None else upto
-    return z3.ForAll([a, b], z3.Implies(z3.And(0 <= a, a <= b, b <= top), cnt_pf(a) <= cnt_pf(b)), patterns=[z3.MultiPattern(cnt_pf(a), cnt_pf(b))])
+    # (as a hypothesis the fact is triggered by the marker alone: the two-term trigger (cnt(a), cnt(b)) multiplies instances quadratically)
+    pats = [mono_mark(a, b)] if marked else [z3.MultiPattern(cnt_pf(a), cnt_pf(b))]
+    return z3.ForAll([a, b], z3.Implies(z3.And(0 <= a, a <= b, b <= top), cnt_pf(a) <= cnt_pf(b)), patterns=pats)
 
 
 @register
@@ -497,8 +505,8 @@ class ParetoCntLemmas(Contract):
         return [
             ("bounds:base", z3.Implies(defn, bounds(z3.IntVal(0)))),
             ("bounds:step", z3.Implies(z3.And(defn, 0 <= m, m < n, bounds(m)), bounds(m + 1))),
-            ("monotone:base", z3.Implies(defn, _pf_monotone(n, z3.IntVal(0)))),
-            ("monotone:step", z3.Implies(z3.And(defn, 0 <= m, m < n, _pf_monotone(n, m)), _pf_monotone(n, m + 1))),
+            ("monotone:base", z3.Implies(defn, _pf_monotone(n, z3.IntVal(0), marked=False))),
+            ("monotone:step", z3.Implies(z3.And(defn, 0 <= m, m < n, _pf_monotone(n, m, marked=False)), _pf_monotone(n, m + 1, marked=False))),
         ]
 
 
@@ -508,9 +516,11 @@ def _pf_listing(c, L, k):
     i, j = z3.Int("i!pl"), z3.Int("j!pl")
     return [
         ("length", L.n == cnt_pf(k)),
-        ("complete", z3.ForAll([i], z3.Implies(z3.And(0 <= i, i < k, feas(i)), z3.And(cnt_pf(i + 1) == cnt_pf(i) + 1, L.elems[cnt_pf(i)] == i)),
-                               # (triggered by cnt(i + 1) only: an instance at i then creates no term that triggers the instance at i + 1)
-                               patterns=[cnt_pf(i + 1)])),
+        # (triggered by a marker alone - the clause names it itself, so a proof of the clause for k + 1 instantiates the hypothesis for k at the same i;
+        # a trigger made of list / cnt terms is matched through the equalities cnt(L[j]) == j and chains along the list)
+        ("complete", z3.ForAll([i], z3.Implies(z3.And(0 <= i, i < k, feas(i)), _naming(z3.And(mono_mark(i + 1, k), pos_mark(i)),
+                                                                                      z3.And(cnt_pf(i + 1) == cnt_pf(i) + 1, L.elems[cnt_pf(i)] == i))),
+                               patterns=[pos_mark(i)])),
         ("sound", z3.ForAll([j], z3.Implies(z3.And(0 <= j, j < L.n), z3.And(0 <= L.elems[j], L.elems[j] < k, feas(L.elems[j]), cnt_pf(L.elems[j]) == j)),
                             patterns=[L.elems[j]])),
     ]
@@ -554,28 +564,29 @@ def _criterion_as_coded(O, L, j):
     """The same criterion in the shape the code evaluates it: the feasible samples listed before the j-th one, then those listed after it
     (row r of the slice `obj_values_filtered[j + 1:]` is the feasible sample number r + j + 1)."""
     t, r = z3.Int("t!cc"), z3.Int("r!cc")
-    return z3.And(z3.ForAll([t], z3.Implies(z3.And(0 <= t, t < j), _strictly_worse_somewhere(O, L.elems[t], L.elems[j]))),
-                  z3.ForAll([r], z3.Implies(z3.And(0 <= r, r < L.n - j - 1), _strictly_worse_somewhere(O, L.elems[r + j + 1], L.elems[j]))))
+    return z3.And(z3.ForAll([t], z3.Implies(z3.And(0 <= t, t < j), _strictly_worse_somewhere(O, L.elems[t], L.elems[j])), patterns=[L.elems[t]]),
+                  z3.ForAll([r], z3.Implies(z3.And(0 <= r, r < L.n - j - 1), _strictly_worse_somewhere(O, L.elems[r + j + 1], L.elems[j])), patterns=[L.elems[r + j + 1]]))
+
+
+pareto_mark = z3.Function("pareto_marker", I_, z3.BoolSort())  # defined as True: only a trigger
+
+
+def _marker_definition():
+    j = z3.Int("j!mk")
+    return [("def:marker", z3.ForAll([j], pareto_mark(j), patterns=[pareto_mark(j)]))]
 
 
 pareto_criterion = z3.Function("pareto_criterion", z3.ArraySort(I_, I_), I_, I_, z3.BoolSort())
 
 
-pareto_unfold = z3.Function("pareto_unfold_marker", I_, z3.BoolSort())  # defined as True: only a trigger for the definition above
-
-
-class _Lst:
-    def __init__(self, elems, n):
-        self.elems, self.n = elems, n
-
-
-def _criterion_definition(c):
-    """Definition (conservative: a new symbol defined by a formula) of pareto_criterion(list, j): the as-coded criterion of the j-th listed sample."""
+def _criterion_definition_if(c):
+    """Assumed when the first loop is left (the list of feasible samples is then final): one half of the DEFINITION of the new symbol
+    pareto_criterion(list, j) - whatever satisfies the as-coded criterion has it (conservative: satisfied by the formula itself)."""
     O = c.old.obj_values.obj
-    E, m, j = z3.Const("E!pd", z3.ArraySort(I_, I_)), z3.Int("m!pd"), z3.Int("j!pd")
-    return [("def:pareto-criterion", z3.ForAll([E, m, j], pareto_criterion(E, m, j) == _criterion_as_coded(O, _Lst(E, m), j),
-                                               patterns=[z3.MultiPattern(pareto_criterion(E, m, j), pareto_unfold(j))])),
-            ("def:unfold-marker", z3.ForAll([j], pareto_unfold(j), patterns=[pareto_unfold(j)]))]
+    L = c.locals["feasible_indexes"]
+    j = z3.Int("j!pd")
+    pc = pareto_criterion(L.elems, L.n, j)
+    return [("def:pareto-criterion(if)", z3.ForAll([j], z3.Implies(_criterion_as_coded(O, L, j), pc), patterns=[z3.MultiPattern(pc, pareto_mark(j))]))]
 
 
 def _criterion_split(c):
@@ -584,9 +595,9 @@ def _criterion_split(c):
     L = c.locals["feasible_indexes"]
     M = c.locals["pareto_optimal"].obj
     j = z3.Int("j!cs")
-    pc = lambda t: pareto_criterion(L.elems, L.n, t)  # noqa: E731
-    return [("pareto-criterion-split-before-after:only-if", z3.ForAll([j], z3.Implies(z3.And(0 <= j, j < L.n, pc(j)), _criterion(O, L, j)), patterns=[pc(j)])),
-            ("pareto-criterion-split-before-after:if", z3.ForAll([j], z3.Implies(z3.And(0 <= j, j < L.n, _criterion(O, L, j)), pc(j)), patterns=[pc(j)]))]
+    pc = pareto_criterion(L.elems, L.n, j)
+    # the other half of the definition (pareto_criterion only holds where the as-coded criterion does), through the change of variable of ParetoSplitLemma
+    return [("def:pareto-criterion(only-if)+split", z3.ForAll([j], z3.Implies(z3.And(0 <= j, j < L.n, pc), _criterion(O, L, j)), patterns=[pc]))]
 
 
 @register
@@ -621,9 +632,9 @@ def _pareto_inv1(c, k):
         # (quantifier-free instance of `sound` at the current position: the subscripts with feasible_indexes[k] are known to be in range)
         ("current-sample-in-range", z3.Implies(k < L.n, z3.And(0 <= L.elems[k], L.elems[k] < n))),
         ("infeasible-samples-stay-excluded", z3.ForAll([i], z3.Implies(z3.And(0 <= i, i < n, z3.Not(feas(i))), z3.Not(M.elems[i])))),
-        ("decided-samples", forall_pat([j], z3.Implies(z3.And(0 <= j, j < k), M.elems[L.elems[j]] == pareto_criterion(L.elems, L.n, j)), rd(j))),
+        ("decided-samples-reported-only-if", forall_pat([j], z3.Implies(z3.And(0 <= j, j < k, M.elems[L.elems[j]]), pareto_criterion(L.elems, L.n, j)), rd(j))),
         # (names the marker that lets the definition of pareto_criterion be unfolded at the current position, and only there)
-        ("unfold-current", pareto_unfold(k)),
+        ("unfold-current", pareto_mark(k)),
         ("undecided-samples", forall_pat([j], z3.Implies(z3.And(k <= j, j < L.n), M.elems[L.elems[j]]), rd(j))),
     ]
 
@@ -637,7 +648,7 @@ class _Pareto(Contract):
     TLIST = None
 
     def axioms(self, c):
-        return _pf_axioms(c, c.old.obj_values.obj.shape[0]) + _criterion_definition(c)
+        return _pf_axioms(c, c.old.obj_values.obj.shape[0]) + _marker_definition()
 
     def requires(self, c):
         fp = c.old.feasible_points
@@ -654,16 +665,14 @@ class _Pareto(Contract):
         p, q = z3.Int("p!pa"), z3.Int("q!pa")
         rng = lambda t: z3.And(0 <= t, t < n)  # noqa: E731
         # (cnt_pf(p), cnt_pf(q): positions of p and q in the list of feasible samples - named so that the loop invariants are instantiated there)
-        named = lambda t: z3.And(cnt_pf(t) >= 0, cnt_pf(t + 1) >= 0)  # noqa: E731
+        L = c.locals["feasible_indexes"]
+        named = lambda t: z3.And(cnt_pf(t) >= 0, cnt_pf(t + 1) >= 0, L.elems[cnt_pf(t)] >= 0, z3.Or(pos_mark(t), z3.Not(pos_mark(t))))  # noqa: E731
+        ordered = z3.Or(mono_mark(p + 1, q), mono_mark(q + 1, p))  # (names the two instances of cnt-monotone that separate the positions of p and q)
         return [
             ("one-flag-per-sample", M.shape[0] == n),
             ("reported-samples-are-feasible", z3.ForAll([p], z3.Implies(z3.And(rng(p), M.elems[p]), feas(p)))),
             ("no-reported-sample-is-dominated-by-a-feasible-one",
-             z3.ForAll([p, q], z3.Implies(z3.And(rng(p), rng(q), M.elems[p], feas(q), q != p, named(p), named(q)), z3.Not(_dominates(O, q, p))))),
-            # beyond the statement of C04 (which only forbids reporting dominated samples): the code's own criterion, so that dropping samples is noticed
-            ("as-coded:a-feasible-sample-than-which-every-other-feasible-one-is-strictly-worse-somewhere-is-reported",
-             z3.ForAll([p], z3.Implies(z3.And(rng(p), feas(p), named(p),
-                                              z3.ForAll([q], z3.Implies(z3.And(rng(q), feas(q), q != p, named(q)), _strictly_worse_somewhere(O, q, p)))), M.elems[p]))),
+             z3.ForAll([p, q], z3.Implies(z3.And(rng(p), rng(q), M.elems[p], feas(q), q != p, named(p), named(q)), _naming(ordered, z3.Not(_dominates(O, q, p)))))),
         ]
 
 
@@ -679,7 +688,7 @@ def _ploops(kind):
     from pyvc.values import TList
 
     l0 = LoopSpec(anchor="enumerate(feasible_points)", modifies=("pareto_optimal", "feasible_indexes"), inv=_pareto_inv0,
-                  local_types={"feasible_indexes": TList(TInt), "i": TInt, "feasible_point": kind})
+                  local_types={"feasible_indexes": TList(TInt), "i": TInt, "feasible_point": kind}, lemmas=_criterion_definition_if)
     return {0: l0, 1: _PLOOPS[1]}
 
 
@@ -690,3 +699,65 @@ class ParetoOptimalPoints(_Pareto):
     targets = (PARETO,)
     params = {"obj_values": F2, "feasible_points": F1}
     loops = _ploops(TReal)
+
+
+# ---------------------------------------------------------------------------- MultiObjectiveOptimizationResult
+PF = A + "pareto.pareto_front.ParetoFront"
+from pyvc.values import ValS, val_none  # noqa: E402
+
+pareto_front_of = z3.Function("c04_pareto_front_of_history", TDict(HNd, POINT, ordered=True).sort(), ValS)
+
+
+def _db_term(D):
+    return TDict(HNd, POINT, ordered=True).dt.mk(D.member, D.vals, D.n, D.keys, D.pos) if False else D
+
+
+@register
+class ParetoFrontFromProblem(Contract):
+    targets = (PF + ".from_optimization_problem",)
+    prop = ("C04",)
+    numpy = "precise"
+    params = {"problem": PROBLEM}
+    returns = TVal
+    trusted = True
+    description = ("assumed (pandas / dataset code around ParetoFront.__get_optima): returns a ParetoFront object that is a deterministic function of the problem "
+                   "(its recorded history, objective and constraints), reading the problem only.  The non-dominated filtering it relies on "
+                   "(compute_pareto_optimal_points) is verified; the assembly of the objective / design histories in __get_optima is not covered")
+
+    def ensures(self, c):
+        return [("deterministic", c.result == pareto_front_token(c.old.problem))]
+
+
+_pf_token = z3.Function("c04_pareto_front_token", I_, ValS)
+
+
+def pareto_front_token(problem_view):
+    """An opaque, non-None value standing for ParetoFront.from_optimization_problem(problem) (one token per problem object)."""
+    return _pf_token(z3.IntVal(problem_view.ref.id))
+
+
+@register
+class MultiObjectiveFromProblem(_FromProblem):
+    """Same clauses as for OptimizationResult (the method is inherited); the additional field `pareto_front` is the Pareto front of the problem
+    exactly when the reported solution is feasible, None otherwise."""
+
+    targets = (RES + ".from_optimization_problem",)
+    variant = "multiobjective"
+    self_class = MORES
+
+    def axioms(self, c):
+        k = z3.Int("k!tk")
+        return super().axioms(c) + [("pareto-front-objects-are-not-None", z3.ForAll([k], _pf_token(k) != val_none, patterns=[_pf_token(k)]))]
+
+    def ensures(self, c):
+        out = super().ensures(c)
+        res = c.result_value
+        if not isinstance(res, RecV) or "x_opt" not in res.vals["__explicit__"]:
+            return out
+        flag = res.vals["__explicit__"]["is_feasible"]
+        flag = flag.term if isinstance(flag, SV) else _bool(flag)
+        d = c._new_heap[res.vals["__extra__"].id]
+        k = str_lit("pareto_front")
+        out += [("pareto-front-field-is-set", d.member[k]),
+                ("pareto-front-iff-feasible", d.vals[k] == z3.If(flag, pareto_front_token(c.old.problem), val_none))]
+        return out
